@@ -91,8 +91,8 @@ func optSortedKeys(m map[string]bool) []string {
 }
 
 func genOptions(r *Repo) (string, error) {
-	f := r.Files["options.go"]
-	if f == nil || r.Files["fox.go"] == nil {
+	f := r.File("options.go")
+	if f == nil || r.File("fox.go") == nil {
 		return "", fmt.Errorf("options.go / fox.go missing")
 	}
 	var sb strings.Builder
